@@ -493,6 +493,23 @@ func c18R5(prog *Prog, pk interface{}, fs map[string]*FuncInfo, r *Report) {
 						}
 						okPrec := false
 						arg := unparen(call.Args[1])
+						// a local defined once from the accepted forms
+						if id, isID := arg.(*ast.Ident); isID {
+							var defs []ast.Expr
+							ast.Inspect(fc.Decl.Body, func(k ast.Node) bool {
+								if as, ok := k.(*ast.AssignStmt); ok && len(as.Lhs) == len(as.Rhs) {
+									for i, l := range as.Lhs {
+										if lid, ok := l.(*ast.Ident); ok && info.ObjectOf(lid) == info.ObjectOf(id) {
+											defs = append(defs, as.Rhs[i])
+										}
+									}
+								}
+								return true
+							})
+							if len(defs) == 1 {
+								arg = unparen(defs[0])
+							}
+						}
 						if tv, ok := info.Types[arg]; ok && tv.Value != nil && tv.Value.ExactString() == "-1" {
 							okPrec = true
 						}
